@@ -240,4 +240,51 @@ theorem leak_rejected (p : Prog) (hwf : WF p) (g s : Nat) (hg : g = 0 ∨ Below 
     · simpa using (below_claimed p hwf st hdi hg h0).1
   exact no_outer_leak p hwf b tr h g s hg' hs pg l hpg hl a ha hleak
 
+/-! ### non-vacuity: the nested-If program of the design probe, an outer leak, a sibling leak -/
+
+/-- ids: 0 x, 1 c (arguments); 2 e = Neg(x); 3 Neg(e) [outer else]; 4 Add(e, x) [inner then];
+    5 inner If(c){else: [x], then: [4]}; 6 outer If(c){else: [3], then: [5]}; 7 Add(6, x) -/
+def exNested : Prog :=
+  { nodes := [⟨true, [], []⟩, ⟨true, [], []⟩, ⟨false, [0], []⟩, ⟨false, [2], []⟩, ⟨false, [2, 0], []⟩,
+              ⟨false, [1], [1, 2]⟩, ⟨false, [1], [3, 4]⟩, ⟨false, [6, 0], []⟩],
+    graphs := [⟨some [0, 1], [7]⟩, ⟨some [], [0]⟩, ⟨some [], [4]⟩, ⟨some [], [3]⟩, ⟨some [], [5]⟩] }
+
+example : exNested.WFb = true := by decide
+
+/-- the build succeeds; `e` (used in the innermost then-branch and in the sibling else-branch) is
+    emitted exactly once, in the main graph; `Add(e, x)` stays in the innermost body -/
+example : ∃ b tr, build exNested = .ok (b, tr) ∧ (emitted tr).count (.node 2) = 1 ∧
+    (V.node 2, 0) ∈ placed tr [] ∧ (V.node 4, 2) ∈ placed tr [] ∧ (V.node 3, 3) ∈ placed tr [] ∧
+    structOk exNested tr [] = true := by
+  refine ⟨_, _, rfl, ?_, ?_, ?_, ?_, ?_⟩ <;> decide
+
+/-- a Loop body argument (4) leaked to the main graph: 7 = Add(Loop, arg 4) -/
+def exOuterLeak : Prog :=
+  { nodes := [⟨true, [], []⟩, ⟨true, [], []⟩, ⟨true, [], []⟩, ⟨true, [], []⟩, ⟨true, [], []⟩,
+              ⟨false, [4, 0], []⟩, ⟨false, [0], [1]⟩, ⟨false, [6, 4], []⟩],
+    graphs := [⟨some [0, 1], [7]⟩, ⟨some [2, 3, 4], [3, 5]⟩] }
+
+example : exOuterLeak.WFb = true := by decide
+example : build exOuterLeak = .error (.build "leaked") := by rfl
+
+/-- the hypotheses of `leak_rejected` are satisfiable (and its conclusion is what the model computes) -/
+example : ∀ b tr, build exOuterLeak ≠ .ok (b, tr) := by
+  have r7 : Reach exOuterLeak.adjIn (.src 0) (.node 7) := Reach.step (Reach.refl _) (by decide)
+  exact leak_rejected exOuterLeak (wf_of_wfb _ (by decide)) 0 1 (Or.inl rfl)
+    (Below.direct (n := 6) (Reach.step r7 (by decide)) (by decide))
+    ⟨some [2, 3, 4], [3, 5]⟩ [2, 3, 4] rfl rfl 4 (by decide) (Reach.step r7 (by decide))
+
+/-- sibling leak (design probe p4): the second Loop body uses the first body's argument 4. The
+    Builder itself does not object (`build` succeeds, both bodies hang off the main graph); it is the
+    structural rule of the final checker that rejects the emission. -/
+def exSiblingLeak : Prog :=
+  { nodes := [⟨true, [], []⟩, ⟨true, [], []⟩, ⟨true, [], []⟩, ⟨true, [], []⟩, ⟨true, [], []⟩,
+              ⟨false, [4, 0], []⟩, ⟨false, [0], [1]⟩,
+              ⟨true, [], []⟩, ⟨true, [], []⟩, ⟨true, [], []⟩,
+              ⟨false, [9, 4], []⟩, ⟨false, [6], [2]⟩],
+    graphs := [⟨some [0, 1], [11]⟩, ⟨some [2, 3, 4], [3, 5]⟩, ⟨some [7, 8, 9], [8, 10]⟩] }
+
+example : ∃ b tr, build exSiblingLeak = .ok (b, tr) ∧ structOk exSiblingLeak tr [] = false := by
+  refine ⟨_, _, rfl, ?_⟩; decide
+
 end C04
